@@ -215,7 +215,22 @@ func checkC11(c *hx.Ctx) {
 				c.Count("signed_with:" + kt)
 			}
 		}
-		// ----- oracle 2: anchored in window, resolves as intended after every prefix
+		// ----- oracle 2: anchored in window, resolves as intended after every prefix. In a third of the cases a second
+		// protocol version (other algorithms, other hash) takes over at time 1025: operations accepted under the first version
+		// are still validated and applied under the version they were accepted under (their ProtocolVersion)
+		if i%3 == 1 {
+			p1 := hx.BaseProtocol()
+			p1.GenesisTime = 1025
+			p1.SignatureAlgorithms, p1.KeyAlgorithms = []string{"ES384"}, []string{"P-384"}
+			p1.MultihashAlgorithms = []uint{ref.SHA512}
+			if code == ref.SHA512 {
+				p1.MultihashAlgorithms = []uint{ref.SHA256}
+			}
+			p1.Patches = []string{"replace"}
+			p1.MaxDeltaSize, p1.MaxOperationSize = 700, 1500
+			pc = hx.NewClient(v, hx.NewVersion(p1, hx.VersionOpts{}))
+			c.Count("chains_crossing_a_protocol_upgrade")
+		}
 		var H []*ref.Op
 		for k, b := range built {
 			H = append(H, Place(b.Desc, t+uint64(10*k), uint64(r.Intn(5)), fmt.Sprintf("ref%d", k), p.GenesisTime))
@@ -246,6 +261,7 @@ func checkC11(c *hx.Ctx) {
 	for _, t := range []string{"create", "update", "recover", "deactivate"} {
 		c.Floor("parsed_back:"+t, 20)
 	}
+	c.Floor("chains_crossing_a_protocol_upgrade", 50)
 	_ = protocol.Protocol{}
 }
 
